@@ -27,19 +27,28 @@ META = {
             'disconnect (close()); socket error (defunct(OSError)); EVENT} is explored: each reply answers the oldest handshake '
             'request the server holds (after STARTUP was accepted on v5 inside a checksummed segment of the negotiated form).  In '
             'every state: the real Connection.factory (inside whose wait the replies are delivered) returns the connection only if a '
-            'READY or AUTH_SUCCESS was delivered and the connection is open; a failed handshake sets connected_event; factory raises '
+            'READY or AUTH_SUCCESS had been delivered by the moment it returns and the connection is open; a failed handshake sets connected_event; factory raises '
             'AuthenticationFailed exactly for authentication failures (never for other failures); every frame pushed before the '
             'server accepted STARTUP is an uncompressed plain frame; later frames are compressed only with the algorithm announced '
             'in STARTUP, which must be in SUPPORTED and locally available; after acceptance outgoing data are v5 segments of the '
             'negotiated form iff the version is v5/v6 (never for v1-v4, DSE_V1, DSE_V2); the lz4 segment form is used iff STARTUP announced '
             'lz4.  A probe request is sent on every ready connection and must go out readable in that form.  '
+            'Authenticator behaviour as part of the alphabet: for the same 8 versions x (compression setting, installed) in {(False, '
+            '{lz4,snappy}), (True, {lz4})} x the 27 scripted Authenticator subclasses auth:I/C1/C2 (initial_response() returns I, '
+            'evaluate_challenge() returns C1 for the first challenge and C2 for every later one; each of I, C1, C2 in {non-empty '
+            'bytes, empty bytes, None}) the tree of all reply sequences of length <= 5 (thorough 7) over {SUPPORTED [lz4,snappy]; '
+            'READY; AUTHENTICATE; AUTH_CHALLENGE; AUTH_SUCCESS; ERROR bad-credentials / server-error; undecodable frame; server '
+            'disconnect; socket error; EVENT} is explored with the same clauses (so zero, one and two challenges (thorough four) each followed by '
+            'every verdict: AUTH_SUCCESS, bad credentials, another challenge, silence, close), plus: connected_event is set on an '
+            'open connection without error only if READY or AUTH_SUCCESS was delivered.  '
             'Aftermath: a failed handshake is continued, before the thread waiting in Connection.factory runs again, with every sequence '
             'of <= 1 (thorough 2) events of {further bytes in the same read as the fatal reply: non-protocol bytes / an undecodable '
             'frame on stream -1; socket error; server disconnect} (one failed handshake per distinct canonical state, fatal reply and '
             'request answered); the authentication clause is judged on the first fatal cause.  '
             'Schedule layer (engine S): a connecting thread (Connection.factory, then one request on the connection it got) runs '
             'against a reactor thread that delivers SUPPORTED and then READY | AUTHENTICATE, AUTH_SUCCESS | AUTHENTICATE, bad-credentials '
-            'ERROR | AUTHENTICATE without an authenticator (thorough: also a challenge round, READY to a configured authenticator, '
+            'ERROR | AUTHENTICATE without an authenticator | for v4 / v5: AUTHENTICATE, AUTH_CHALLENGE answered with None by the scripted '
+            'authenticator auth:B/N/N, AUTH_SUCCESS (thorough: all versions, also two challenges then bad credentials with auth:N/E/N, a PlainText challenge round, READY to a configured authenticator, '
             'socket error, server error, v1 credentials) for versions {3,4,5,6,DSE_V1,DSE_V2} (thorough: v2-DSE_V2, v1 credentials) x {no compression, lz4 negotiated}: every '
             'schedule with <= 1 preemption (thorough: <= 2 for v4/v5; all non-preemptive orders included) is enumerated, scheduling '
             'points = every virtual lock / event operation and every source line of _handle_options_response, _handle_startup_response, '
@@ -58,6 +67,15 @@ META = {
 VERSIONS = (1, 2, 3, 4, 5, 6, 0x41, 0x42)
 VNAMES = {0x41: 'dse1', 0x42: 'dse2'}
 AUTHS = ('none', 'sasl', 'dict')
+# scripted authenticators: the authenticator's behaviour is part of the handshake alphabet.  'auth:I/C1/C2' = an Authenticator subclass
+# whose initial_response() returns I, whose evaluate_challenge() returns C1 for the first challenge and C2 for every later one;
+# B = non-empty bytes, E = empty bytes, N = None ("nothing more to send": the documented return value of both methods)
+ANSWERS = ('B', 'E', 'N')
+SCRIPTED = tuple('auth:%s/%s/%s' % (i, c1, c2) for i in ANSWERS for c1 in ANSWERS for c2 in ANSWERS)
+SCRIPTED_COMP_LOCAL = ((False, ('lz4', 'snappy')), (True, ('lz4',)))
+# replies played to a scripted authenticator: one SUPPORTED form (the others are covered with the three AUTHS), every verdict
+SCRIPTED_REPLIES = ('SUP[lz4,snappy]', 'READY', 'AUTHENTICATE', 'CHALLENGE', 'AUTH_SUCCESS', 'ERR_BADCRED', 'ERR_SERVER', 'GARBAGE',
+                    'DISCONNECT', 'SOCKERR', 'EVENT')
 LOCALS = (('lz4',), ('snappy',), ('lz4', 'snappy'))
 # (compression setting, locally installed algorithms)
 COMP_LOCAL = tuple((c, l) for c in (True, 'lz4', 'snappy') for l in LOCALS) + ((True, ()), (False, ('lz4', 'snappy')))
@@ -200,6 +218,37 @@ def restore_local():
         cc.segment_codec_lz4 = _SAVED['codec']
 
 
+def scripted_authenticator(kind):
+    """instance of a cassandra.auth.Authenticator subclass that behaves as `kind` ('auth:I/C1/C2') says and records its calls"""
+    from cassandra.auth import Authenticator
+    if kind not in SCRIPTED:
+        raise HarnessError('unknown authenticator kind %r' % (kind,))
+    ini, c1, c2 = kind[len('auth:'):].split('/')
+
+    def value(letter, token):
+        return {'B': token, 'E': b'', 'N': None}[letter]
+
+    class ScriptedAuthenticator(Authenticator):
+        def __init__(self):
+            self.calls = []          # ('initial', returned) / ('challenge', challenge, returned) / ('success', token)
+
+        def initial_response(self):
+            r = value(ini, b'\x00user\x00secret')
+            self.calls.append(('initial', r))
+            return r
+
+        def evaluate_challenge(self, challenge):
+            n = sum(1 for c in self.calls if c[0] == 'challenge')
+            r = value(c1 if n == 0 else c2, b'response-%d' % (n + 1))
+            self.calls.append(('challenge', challenge, r))
+            return r
+
+        def on_authentication_success(self, token):
+            self.calls.append(('success', token))
+
+    return ScriptedAuthenticator()
+
+
 def make_server():
     from vt.world.vworld import VServer, Pending
     from vt.world import wire
@@ -308,6 +357,9 @@ class Run(object):
         self.snapshot = None
         self.returned = None
         self.exc = None
+        self.authn = None
+        self.delivered_at_return = None
+        self.undelivered = []      # scripted replies dropped because the handshake had failed before their turn
         if not connect:
             return
         try:
@@ -331,10 +383,14 @@ class Run(object):
             authn = PlainTextAuthenticator('user', 'secret')
         elif self.auth == 'dict':
             authn = {'username': 'user', 'password': 'secret'}
+        elif self.auth != 'none':
+            authn = scripted_authenticator(self.auth)
+        self.authn = authn
         try:
             kw = {'allow_beta_protocol_version': True} if self.version == 6 else {}
             self.returned = VConnection.factory('10.0.0.1', 5.0, protocol_version=self.version, authenticator=authn,
                                                 compression=self.compression, **kw)
+            self.delivered_at_return = list(self.delivered)      # what the server had sent when the connection was reported ready
         except Exception as e:
             self.exc = e
 
@@ -355,6 +411,12 @@ class Run(object):
         """one turn of the reactor: the next reply (with the bytes that arrive in the same read); once the connection has failed,
         everything that is still to happen to it happens before the thread waiting in Connection.factory runs again"""
         while self.queue:
+            if self.is_failed() and self.queue[0] not in AFTERMATH and self.queue[0] not in OOB:
+                # a scripted reply to a request the driver never sent: the handshake failed earlier than the script expected
+                # (schedule layer only; the sequential layer extends a failed handshake with AFTERMATH events only)
+                self.undelivered = list(self.queue)
+                del self.queue[:]
+                break
             r = self.queue.pop(0)
             trail = []
             while self.queue and self.queue[0] in SAME_READ:
@@ -497,12 +559,18 @@ def judge(run, part, cfg, seq, extra=None, layer=''):
     got_ok = any(r in ('READY', 'AUTH_SUCCESS') for r in run.delivered)
     # (R) Connection.factory returns the connection only after READY / AUTH_SUCCESS, and then it is usable
     if run.returned is not None:
-        if not got_ok:
-            viol('C47/ready-without-READY/after=%s' % (hist[-1][0] if hist else 'nothing'),
-                 'Connection.factory returned the connection although the server never sent READY or AUTH_SUCCESS; '
+        at_return = run.delivered if run.delivered_at_return is None else run.delivered_at_return
+        if not any(r in ('READY', 'AUTH_SUCCESS') for r in at_return):
+            viol('C47/ready-without-READY/after=%s' % (at_return[-1] if at_return else 'nothing'),
+                 'Connection.factory returned the connection although the server had not sent READY or AUTH_SUCCESS by then; '
                  'is_closed=%r is_defunct=%r last_error=%r' % (conn.is_closed, conn.is_defunct, conn.last_error))
         elif conn.is_closed or conn.is_defunct:
             viol('C47/ready-but-closed', 'Connection.factory returned a closed/defunct connection')
+    # (E) connected_event set without error only after READY / AUTH_SUCCESS (whatever the authenticator answered to a challenge)
+    if snap['event'] and not run.failed() and not got_ok:
+        viol('C47/connected_event-without-READY/after=%s' % (hist[-1][0] if hist else 'nothing'),
+             'connected_event is set on an open connection without error (last_error=%r) although the server never sent READY or '
+             'AUTH_SUCCESS; authenticator calls %r' % (snap['last_error'], getattr(run.authn, 'calls', None)))
     # (F) a failed handshake is signalled
     if run.failed() and not snap['event']:
         viol('C47/failure-not-signalled/after=%s' % hist[-1][0], 'connection failed but connected_event is not set '
@@ -634,12 +702,32 @@ def probe(run, part, cfg, seq):
     judge_probe(run, part, cfg, seq, send_probe(run))
 
 
+def token_form(t):
+    return 'null' if t is None else ('empty' if not t else 'bytes')
+
+
+def exchange(run, part, seq):
+    """evidence of a scripted authenticator's exchange: what it returned, what the server read in the AUTH_RESPONSE frames, the end"""
+    calls = run.authn.calls
+    returned = [token_form(c[-1]) for c in calls if c[0] in ('initial', 'challenge')]
+    sent = [token_form(fr.get('token')) for rec in run.conn.server_state['out'] for fr in rec['frames'] if fr.get('op') == 'AUTH_RESPONSE']
+    nch = sum(1 for c in calls if c[0] == 'challenge')
+    part.outcome(('exchange', run.auth, '>'.join(returned) or '-', '>'.join(sent) or '-', 'challenges=%d' % nch,
+                  'success-callback' if any(c[0] == 'success' for c in calls) else '-',
+                  'ready' if run.returned is not None else ('failed' if run.failed() else 'waiting')))
+    if nch:
+        part.count('challenge_exchanges')
+    if nch >= 2:
+        part.count('two_challenge_exchanges')
+
+
 def explore_cfg(item):
     connlib.quiet_driver_logs()
     cfg, maxlen, maxafter = item
     part = Part()
     seen = set()
     expanded = set()           # (canonical failed state, fatal reply, request it answered) whose aftermath has been explored
+    replies = SCRIPTED_REPLIES if cfg[1] in SCRIPTED else REPLIES
     nready = 0
     stack = [((), 0)]          # (sequence, number of its trailing elements that are aftermath of a failure)
     while stack:
@@ -668,6 +756,8 @@ def explore_cfg(item):
                 part.count('evaluations')
                 if run.returned is None:
                     part.outcome(('end', 'failed' if run.failed() else 'open', type(run.exc).__name__))
+                if run.auth in SCRIPTED:
+                    exchange(run, part, seq)
                 if any(r in ('CHALLENGE', 'AUTHENTICATE', 'EVENT') for r in seq):
                     part.count('distinct_nontrivial')      # every (configuration, sequence) is visited once
                 if len(seq) >= 3:
@@ -686,7 +776,7 @@ def explore_cfg(item):
                         stack.append((seq + (r,), nafter + 1))
             if not term and len(seq) < maxlen and not nafter:
                 has_pending = bool(run.pending())
-                for r in reversed(REPLIES):
+                for r in reversed(replies):
                     if r in OOB or has_pending:
                         stack.append((seq + (r,), 0))
         finally:
@@ -697,6 +787,9 @@ def explore_cfg(item):
         raise HarnessError('vacuous: no reply sequence made configuration %r ready' % (cfg,))
     if maxafter and not expanded:
         raise HarnessError('vacuous: no failed handshake of configuration %r had its aftermath explored' % (cfg,))
+    if cfg[1] in SCRIPTED and cfg[0] >= 2 and maxlen >= 5 and not part.violations and \
+            not part.counters.get('two_challenge_exchanges'):
+        raise HarnessError('vacuous: the scripted authenticator of configuration %r never answered two challenges' % (cfg,))
     return part
 
 
@@ -803,10 +896,14 @@ def sched_cases(thorough):
                     ('none', ('ERR_SERVER',))]
         versions = [2, 3, 4, 5, 6, 0x41, 0x42]
     comps = ((False, 'SUP[]'), (True, 'SUP[lz4,snappy]'))
+    # a scripted authenticator that answers the challenge with None, then the server's verdict (quick: v4 / v5; thorough: all)
+    challenge_none = [('auth:B/N/N', ('AUTHENTICATE', 'CHALLENGE', 'AUTH_SUCCESS'))]
+    if thorough:
+        challenge_none += [('auth:N/E/N', ('AUTHENTICATE', 'CHALLENGE', 'CHALLENGE', 'ERR_BADCRED'))]
     out = []
     for v in versions:
         for comp, sup in comps:
-            for auth, tail in scripts:
+            for auth, tail in scripts + (challenge_none if thorough or v in (4, 5) else []):
                 out.append(({'version': v, 'auth': auth, 'compression': comp, 'local': ['lz4', 'snappy'], 'replies': [sup] + list(tail)},
                             2 if thorough and v in (4, 5) else 1))         # thorough: two preemptions for v4 / v5
     if thorough:
@@ -854,13 +951,16 @@ def run(ctx):
     maxlen = 5 if ctx.quick else 7
     maxafter = 1 if ctx.quick else 2
     cfgs = [(v, a, c, l) for v in VERSIONS for a in AUTHS for c, l in COMP_LOCAL]
+    cfgs += [(v, a, c, l) for v in VERSIONS for a in SCRIPTED for c, l in SCRIPTED_COMP_LOCAL]
     connlib.before_fork()
     for part in ctx.pmap(explore_cfg, [(c, maxlen, maxafter) for c in ctx.rotate(cfgs)]):
         ctx.merge(part)
     jobs = run_sched(ctx)
-    ctx.cov['rule'] = ('%d configurations (versions %s x authenticators %s x (compression setting, locally installed algorithms) %s) '
+    ctx.cov['rule'] = ('%d configurations (versions %s x authenticators %s x (compression setting, locally installed algorithms) %s, '
+                       'plus versions x %d scripted authenticators auth:I/C1/C2 (I, C1, C2 in bytes / empty / None) x %s) '
                        'x every reply sequence of length <= %d '
-                       'over %d reply kinds (a sequence ends early when the connection is ready or failed), plus %d aftermath executions: '
+                       'over %d reply kinds (%d for the scripted authenticators; a sequence ends early when the connection is ready or '
+                       'failed; %d maximal sequences in which a scripted authenticator answered a challenge, %d two or more), plus %d aftermath executions: '
                        'every sequence of <= %d events of %s appended to one failed handshake per distinct (configuration, canonical '
                        'state of the failed connection, fatal reply, request it answered); plus %d schedule-layer executions = every '
                        'schedule with <= 1 preemption (%d scenarios, <= 2 for %d of them) (connecting thread vs reactor thread; %d executions send the first '
@@ -869,7 +969,10 @@ def run(ctx):
                        'sched_steps = scheduling points passed; non-trivial = '
                        'maximal sequences containing an AUTHENTICATE / AUTH_CHALLENGE / EVENT, aftermath executions, schedules with at '
                        'least one non-default choice, and ready connections whose probe '
-                       'request went out compressed' % (len(cfgs), list(VERSIONS), list(AUTHS), [(c, '+'.join(l) or 'none') for c, l in COMP_LOCAL], maxlen, len(REPLIES),
+                       'request went out compressed' % (len(cfgs), list(VERSIONS), list(AUTHS), [(c, '+'.join(l) or 'none') for c, l in COMP_LOCAL],
+                                                        len(SCRIPTED), [(c, '+'.join(l)) for c, l in SCRIPTED_COMP_LOCAL], maxlen, len(REPLIES),
+                                                        len(SCRIPTED_REPLIES), ctx.counters.get('challenge_exchanges', 0),
+                                                        ctx.counters.get('two_challenge_exchanges', 0),
                                                         ctx.counters.get('aftermath_executions', 0), maxafter, list(AFTERMATH),
                                                         ctx.counters.get('sched_executions', 0), len(jobs), len([1 for _, b in jobs if b == 2]),
                                                         ctx.counters.get('sched_probe_overlaps_handler', 0)))
